@@ -132,6 +132,51 @@ def decodeUnit (c : Conv) (codec : Codec) (stored : Bytes) (expected : Nat) (com
     | none => .error "codec-unknown-unit"
   else .ok (stored.take expected)
 
+/-- the raw stored units of a file after decryption, with the plain length each must decode to (for an external,
+    independent codec — CPython's zlib/bz2 in C02) -/
+def storedUnits (c : Conv) (arch : Bytes) (name : Bytes) : Except String (Nat × List (Nat × Bytes)) :=
+  match parseHeader arch with
+  | none => .error "header"
+  | some h =>
+  match readTable arch h.hashPos h.hashCount tableKeyHash, readTable arch h.blockPos h.blockCount tableKeyBlock with
+  | some ht, some bt =>
+    match findBlock ht name with
+    | none => .error "notfound"
+    | some bi =>
+      match bt[bi]? with
+      | some [pos, csize, fsize, flags] =>
+        let b : BlockE := ⟨pos, csize, fsize, flags⟩
+        let enc := hasFlag flags FLAG_ENCRYPTED
+        let comp := hasFlag flags FLAG_COMPRESS || hasFlag flags FLAG_IMPLODE
+        let key := fileKey c name b
+        let ssz := sectorSize h
+        if hasFlag flags FLAG_SINGLE_UNIT then
+          match slice arch pos csize with
+          | none => .error "bounds"
+          | some raw => .ok (flags, [(fsize, if enc then decBytes c raw key else raw)])
+        else if comp then
+          let n := (fsize + ssz - 1) / ssz
+          match slice arch pos ((n + 1) * 4) with
+          | none => .error "bounds"
+          | some ot =>
+            let ot := if enc then decBytes c ot (key - 1) else ot
+            let offs := (List.range (n + 1)).map fun i => u32At ot (4 * i)
+            let us := (List.range n).map fun i =>
+              let s := offs.getD i 0; let e := offs.getD (i + 1) 0
+              let raw := ((arch.drop (pos + s)).take (e - s))
+              (min ssz (fsize - i * ssz), if enc then decBytes c raw (key + BitVec.ofNat 32 i) else raw)
+            .ok (flags, us)
+        else
+          match slice arch pos fsize with
+          | none => .error "bounds"
+          | some raw =>
+            let n := (fsize + ssz - 1) / ssz
+            .ok (flags, (List.range n).map fun i =>
+              let r := (raw.drop (i * ssz)).take ssz
+              (r.length, if enc then decBytes c r (key + BitVec.ofNat 32 i) else r))
+      | _ => .error "blockindex"
+  | _, _ => .error "tables"
+
 /-- read one file; mirrors the published layout: single unit; sectored with an offset table iff COMPRESS/IMPLODE;
     otherwise plain sectors, each encrypted with key + index -/
 def readFile (c : Conv) (codec : Codec) (arch : Bytes) (name : Bytes) : Except String Bytes :=
